@@ -295,11 +295,17 @@ def judge_queries(case, ctx, prefix):
             continue
         for q in ('get_voltage', 'get_current', 'get_power', 'get_potential'):
             def query():
-                r = getattr(sol, q)(unk)
-                if callable(r):            # time functions: the error may surface on evaluation
-                    r = r(t)
-                return r
-            must_raise(ctx, prefix, f'unknown-id/{kind}/{q}', f'{kind} solution {q}({unk!r})', query)
+                return getattr(sol, q)(unk)
+            r0 = call(query)
+            if not raised(r0) and callable(r0):
+                # the query answered with a function object: a value was returned for an unknown identifier; whether or not that
+                # function fails later when evaluated, the query itself did not reject the identifier
+                r1 = call(r0, t)
+                ctx.count('faults_injected'); ctx.count('faults_unknown-id')
+                ctx.violation(f'{prefix}/accepted/unknown-id/{kind}/{q}/' + ('error-deferred-until-evaluation' if raised(r1) else 'function-returned'),
+                              f'{kind} solution {q}({unk!r}) returned the function {r0!r}' + (f'; the error only surfaces when it is evaluated: {r1.text[:120]}' if raised(r1) else ''), {})
+            else:
+                must_raise(ctx, prefix, f'unknown-id/{kind}/{q}', f'{kind} solution {q}({unk!r})', query)
             ctx.evaluated(repr(('query', kind, q, unk)), True)
         # known ids must still answer
         some = next(c['id'] for c in cd['components'] if c['ctor'] != 'ground')
